@@ -3,3 +3,81 @@
 pub use crate::dcps::dcps_domain_participant::data_reader_entity::{
     AddChangeResult, DataReaderEntity, InstanceOwnership, InstanceState, ReaderSample,
 };
+pub use crate::dcps::dcps_domain_participant::user_defined_data_reader::UserDefinedDataReader;
+
+use crate::{
+    builtin_topics::{BuiltInTopicKey, PublicationBuiltinTopicData, SubscriptionBuiltinTopicData},
+    infrastructure::qos::{DataReaderQos, DataWriterQos, PublisherQos, SubscriberQos, TopicQos},
+};
+
+/// Builds the builtin topic data a writer with the given QoS would announce (fields are crate-private).
+pub fn publication_builtin_topic_data(
+    key: [u8; 16],
+    participant_key: [u8; 16],
+    topic_name: &str,
+    type_name: &str,
+    writer_qos: &DataWriterQos,
+    publisher_qos: &PublisherQos,
+    topic_qos: &TopicQos,
+) -> PublicationBuiltinTopicData {
+    PublicationBuiltinTopicData {
+        key: BuiltInTopicKey { value: key },
+        participant_key: BuiltInTopicKey {
+            value: participant_key,
+        },
+        topic_name: alloc::string::String::from(topic_name).into(),
+        type_name: alloc::string::String::from(type_name).into(),
+        type_information: None,
+        durability: writer_qos.durability.clone(),
+        deadline: writer_qos.deadline.clone(),
+        latency_budget: writer_qos.latency_budget.clone(),
+        liveliness: writer_qos.liveliness.clone(),
+        reliability: writer_qos.reliability.clone(),
+        lifespan: writer_qos.lifespan.clone(),
+        user_data: writer_qos.user_data.clone(),
+        ownership: writer_qos.ownership.clone(),
+        ownership_strength: writer_qos.ownership_strength.clone(),
+        destination_order: writer_qos.destination_order.clone(),
+        presentation: publisher_qos.presentation.clone(),
+        partition: publisher_qos.partition.clone(),
+        topic_data: topic_qos.topic_data.clone(),
+        group_data: publisher_qos.group_data.clone(),
+        representation: writer_qos.representation.clone(),
+    }
+}
+
+/// Builds the builtin topic data a reader with the given QoS would announce (fields are crate-private).
+pub fn subscription_builtin_topic_data(
+    key: [u8; 16],
+    participant_key: [u8; 16],
+    topic_name: &str,
+    type_name: &str,
+    reader_qos: &DataReaderQos,
+    subscriber_qos: &SubscriberQos,
+    topic_qos: &TopicQos,
+) -> SubscriptionBuiltinTopicData {
+    SubscriptionBuiltinTopicData {
+        key: BuiltInTopicKey { value: key },
+        participant_key: BuiltInTopicKey {
+            value: participant_key,
+        },
+        topic_name: alloc::string::String::from(topic_name).into(),
+        type_name: alloc::string::String::from(type_name).into(),
+        type_information: None,
+        durability: reader_qos.durability.clone(),
+        deadline: reader_qos.deadline.clone(),
+        latency_budget: reader_qos.latency_budget.clone(),
+        liveliness: reader_qos.liveliness.clone(),
+        reliability: reader_qos.reliability.clone(),
+        ownership: reader_qos.ownership.clone(),
+        destination_order: reader_qos.destination_order.clone(),
+        user_data: reader_qos.user_data.clone(),
+        time_based_filter: reader_qos.time_based_filter.clone(),
+        presentation: subscriber_qos.presentation.clone(),
+        partition: subscriber_qos.partition.clone(),
+        topic_data: topic_qos.topic_data.clone(),
+        group_data: subscriber_qos.group_data.clone(),
+        representation: reader_qos.representation.clone(),
+        type_consistency: reader_qos.type_consistency.clone(),
+    }
+}
